@@ -150,6 +150,32 @@ fn shape<const D: usize>(dv: &[u8]) -> CaseResult {
                     wc[a] = 1;
                 });
                 vensure!(r.is_err(), "out-of-range-index_mut-accepted", "dims {:?}: writing t[{:?}] (dimension {} out of range) did not panic", dl, a, dim);
+                // the same probes right after *valid* accesses that share every other coordinate (a read, a write, or both): whatever an
+                // access leaves behind in the tensor (a cached row, offset or layout) must not replace the per-dimension check
+                let mut a0 = [0usize; D];
+                a0.copy_from_slice(idx);
+                for prior in 0..3u8 {
+                    let mut tw = t.clone();
+                    if prior != 1 {
+                        let v = tw[a0];
+                        std::hint::black_box(v);
+                    }
+                    if prior != 0 {
+                        tw[a0] = 4242;
+                    }
+                    let what = ["read", "write", "read and write"][prior as usize];
+                    let r = catch(|| tw[a]);
+                    if let Ok(v) = r {
+                        return Err(Violation::new(
+                            "out-of-range-index-accepted",
+                            format!("dims {:?}: after a valid {} of t[{:?}], t[{:?}] (dimension {} out of range) returned {} instead of panicking{}", dl, what, a0, a, dim, v, if flat_inside { " - it aliases another element" } else { "" }),
+                        ));
+                    }
+                    let r = catch(move || {
+                        tw[a] = 1;
+                    });
+                    vensure!(r.is_err(), "out-of-range-index_mut-accepted", "dims {:?}: after a valid {} of t[{:?}], writing t[{:?}] (dimension {} out of range) did not panic", dl, what, a0, a, dim);
+                }
                 if flat_inside && dim + 1 < D {
                     st.label("invalid-index-with-offset-inside-storage");
                 }
